@@ -76,4 +76,19 @@ theorem ownership_table_audited : Access.offLoop.all ok = true := by decide +ker
 theorem exceptions_not_stale :
     (justified ++ findings).all (fun j => Access.offLoop.any fun r => r.1 == j.1 && r.2.1 == j.2.1) = true := by decide +kernel
 
+/-- state that is shared by all event loops and by foreign goroutines without any loop owning it: the counters of the
+    process-wide ring-buffer pool, the wake-up flag of a poller, the pointers and the counter of the lock-free
+    task queue. Every access to it, anywhere in those packages, must go through sync/atomic (the `sync.Pool`s
+    inside the pools synchronise themselves). -/
+def sharedAtomicFields : List String :=
+  ["Pool.calls", "Pool.calibrating", "Pool.defaultSize", "Pool.maxSize", "Poller.wakeupCall",
+   "lockFreeQueue.head", "lockFreeQueue.tail", "lockFreeQueue.length", "node.next"]
+
+theorem shared_state_atomic :
+    Access.shared.all (fun r => !sharedAtomicFields.contains r.2.2.1 || r.2.2.2 == "atomic") = true := by decide +kernel
+
+/-- the list is not stale: each of these fields is accessed somewhere -/
+theorem shared_fields_exist :
+    sharedAtomicFields.all (fun f => Access.shared.any fun r => r.2.2.1 == f) = true := by decide +kernel
+
 end Gnet.Props.C05
